@@ -37,6 +37,18 @@ def gen(rng, tier):
                     key = c06.gen_key(rng, len(docs))
                 keys = [key]
             sources.append({"docs": docs, "avoid": rng.random() < 0.7, "keys": keys})
+        if route == "concat" and rng.random() < 0.35:
+            # all pieces but one are EMPTY selections, the remaining one is a proper subset of a larger index: the result
+            # is still a corpus of its own (document frequencies / average length / N of ITS documents)
+            keep = rng.randrange(len(sources))
+            for j, src in enumerate(sources):
+                n_j = len(src["docs"])
+                if j == keep:
+                    if n_j >= 2:
+                        a = rng.randrange(n_j - 1)
+                        src["keys"] = [{"k": "slice", "v": [a, rng.randint(a + 1, n_j - (1 if a == 0 else 0)), None]}]
+                else:
+                    src["keys"] = [{"k": "slice", "v": [0, 0, None]}]
         case = {"route": route, "sources": sources}
         n0 = _nrows(sources[0])
         if route == "take_fill":
